@@ -1242,6 +1242,17 @@ func genCtxFlow(root *pkgSrc) {
 	fmt.Fprintf(&b, "/-- legacy SSE keeps ONE context function (`WithSSEContextFunc` overwrites: the last option wins). Writers found: %s -/\ndef cfSSESingleCtxFunc : Bool := %s\n", cfCmt(strings.Join(sseWriters, " | ")), leanBool(sseSingle))
 	fmt.Fprintf(&b, "/-- `SSEServer.handleMessage` applies the context function to the POST it is serving (not to the stream's GET) and passes the result on. -/\ndef cfSSEAppliesToPost : Bool := %s\n", leanBool(ssePost))
 	fmt.Fprintf(&b, "/-- `createSessionContext` adds session, server and client session to the context it is given. -/\ndef cfSSEInjects : Bool := %s\n", leanBool(sseInject))
+	appends := c.cfFieldAppends()
+	b.WriteString("/-- Every `append(F, …)` whose first argument is a struct field or package-level variable: (function, target, verdict). assign-back = the result is assigned to that same field (`F = append(F, …)`, the registration idiom); aliased = the result goes anywhere else — when F has spare capacity the new element is written into F's backing array, shared by every concurrent caller. -/\n")
+	b.WriteString("def cfFieldAppends : List (List Nat × List Nat × List Nat) := [\n")
+	for i, a := range appends {
+		sep := ","
+		if i == len(appends)-1 {
+			sep = ""
+		}
+		fmt.Fprintf(&b, "  %s%s  -- %s: append(%s, …) %s\n", cfTuple(a[0], a[1], a[2]), sep, a[0], a[1], a[2])
+	}
+	b.WriteString("]\n\n")
 	b.WriteString("/-- How the session a request is processed with is found: (function, verdict). delegates = the adapter has no state of its own and returns the manager's answer; guarded-map-read = one read of the id-keyed map under the manager's lock, returned as read; own-header = handlePost looks up under the request's own Mcp-Session-Id header and hands on exactly that session; keyed-load = one sync.Map Load under the request's own sessionId parameter. -/\n")
 	b.WriteString("def cfSessionLookups : List (List Nat × List Nat) := [\n")
 	lookups := cfSessionLookups(root)
@@ -1685,4 +1696,87 @@ func cfSessionLookups(root *pkgSrc) [][2]string {
 		{"session.SessionManager.GetSession", cfManagerLookup(sp)},
 		{"sessionManagerAdapter.getSession", cfAdapterLookup(root)},
 	}
+}
+
+// cfFieldAppends: every append whose first argument is a struct field / package-level variable, and what becomes
+// of the result.
+func (c *cfPkg) cfFieldAppends() [][3]string {
+	var out [][3]string
+	isAppend := func(e ast.Expr) (*ast.CallExpr, string) {
+		call, ok := e.(*ast.CallExpr)
+		if !ok || len(call.Args) == 0 {
+			return nil, ""
+		}
+		id, ok := call.Fun.(*ast.Ident)
+		if !ok || id.Name != "append" {
+			return nil, ""
+		}
+		if _, isBuiltin := c.info.Uses[id].(*types.Builtin); !isBuiltin && c.info.Uses[id] != nil {
+			return nil, ""
+		}
+		// a full slice expression F[:n:n] cannot alias: skip it
+		if se, ok := call.Args[0].(*ast.SliceExpr); ok && se.Slice3 {
+			return nil, ""
+		}
+		t, _ := c.cfTarget(call.Args[0])
+		return call, t
+	}
+	for _, fname := range c.root.sortedFiles() {
+		for _, d := range c.root.files[fname].Decls {
+			fd, ok := d.(*ast.FuncDecl)
+			if !ok || fd.Body == nil {
+				continue
+			}
+			back := map[*ast.CallExpr]bool{}
+			ast.Inspect(fd.Body, func(n ast.Node) bool {
+				as, ok := n.(*ast.AssignStmt)
+				if !ok || len(as.Lhs) != len(as.Rhs) {
+					return true
+				}
+				for i, r := range as.Rhs {
+					if call, t := isAppend(r); call != nil && t != "" && as.Tok == token.ASSIGN {
+						// F = append(F, …) and the delete idiom F = append(F[:i], F[i+1:]…): the result replaces F itself
+						first := call.Args[0]
+						if se, ok := first.(*ast.SliceExpr); ok {
+							first = se.X
+						}
+						if mwSquash(c.root.text(as.Lhs[i])) == mwSquash(c.root.text(first)) {
+							back[call] = true
+						}
+					}
+				}
+				return true
+			})
+			ast.Inspect(fd.Body, func(n ast.Node) bool {
+				e, ok := n.(ast.Expr)
+				if !ok {
+					return true
+				}
+				if call, t := isAppend(e); call != nil && t != "" {
+					v := "aliased"
+					if back[call] {
+						v = "assign-back"
+					}
+					out = append(out, [3]string{funcName(fd), t, v})
+				}
+				return true
+			})
+		}
+	}
+	sort.Slice(out, func(i, j int) bool {
+		for k := 0; k < 3; k++ {
+			if out[i][k] != out[j][k] {
+				return out[i][k] < out[j][k]
+			}
+		}
+		return false
+	})
+	var u [][3]string
+	for i, a := range out {
+		if i > 0 && a == out[i-1] {
+			continue
+		}
+		u = append(u, a)
+	}
+	return u
 }
